@@ -1,16 +1,685 @@
 import VrpProofs.Props.C04
+import VrpProofs.Props.C05b
+import VrpProofs.Props.C06
+import VrpProofs.Props.C07b
+import VrpProofs.Lemmas.Compose
+import VrpProofs.Lemmas.PathHeur
 
+/-!
+# C08 — The three formulations agree on the optimum of the same VRPTW (compositions)
+
+The reference problem: partition the customers into VRPTW routes (`C06.ValidRoute`), minimise the summed
+arc cost.  The theorems connect each formulation's feasible set (as characterised in C05–C07) with reference
+partitions, cost-preservingly; equality / ordering of optima and of default-penalty QUBO minima (C04) follow
+by `min_le_of_embedding`.  The end-to-end equalities are additionally decided on every run by exhaustive
+optimisation of the four real models.
+-/
 namespace Vrp.C08
-open Vrp
+open Vrp Vrp.Compose
 
-/-- an embedding of feasible sets that preserves cost transfers lower bounds on the optimum:
-    if every feasible point of problem 1 has a feasible point of problem 2 of equal or lower cost,
-    then any lower bound of problem 2's costs is a lower bound of problem 1's -/
+/-- an embedding of feasible sets that does not increase cost transfers lower bounds on the optimum -/
 theorem min_le_of_embedding {α β : Type} (feas₁ : α → Prop) (cost₁ : α → ℚ) (feas₂ : β → Prop) (cost₂ : β → ℚ)
     (emb : ∀ a, feas₁ a → ∃ b, feas₂ b ∧ cost₂ b ≤ cost₁ a) (lb : ℚ) (hlb : ∀ b, feas₂ b → lb ≤ cost₂ b) :
     ∀ a, feas₁ a → lb ≤ cost₁ a := by
   intro a ha
   obtain ⟨b, hb, hc⟩ := emb a ha
   exact le_trans (hlb b hb) hc
+
+/-- reference solution: a list of valid routes in which every customer occurs in exactly one route -/
+def IsPartition (g : Graph) (cap init : ℚ) (rs : List (List ℕ)) : Prop :=
+  (∀ r ∈ rs, C06.ValidRoute g cap init r) ∧ rs.Nodup ∧
+  ∀ k, 1 ≤ k → k < g.nodes.length → (rs.filter fun r => k ∈ r).length = 1
+
+/-- cost of a valid route = its summed arc cost -/
+def routeCost (g : Graph) (cap init : ℚ) (r : List ℕ) : ℚ := (C06.follow g cap 0 r.tail 0 init 0).getD 0
+
+def partitionCost (g : Graph) (cap init : ℚ) (rs : List (List ℕ)) : ℚ := (rs.map (routeCost g cap init)).sum
+
+/-- the pool is consistent with the current graph: every stored route is valid and stored with its cost -/
+def PoolValid (P : PathInst) (cap init : ℚ) : Prop :=
+  ∀ k (hk : k < P.routes.length), C06.ValidRoute P.g cap init P.routes[k] ∧
+    P.costs.getD k 0 = routeCost P.g cap init P.routes[k]
+
+/-- routes selected by `x` -/
+def selRoutes (P : PathInst) (x : Vec) : List (List ℕ) :=
+  (List.range P.routes.length).filterMap fun k => if x k = 1 then P.routes[k]? else none
+
+/-! ## statements -/
+
+/-! ### helper lemmas for the path-based theorems -/
+
+theorem selRoutes_eq (P : PathInst) (x : Vec) : selRoutes P x = selFrom 0 P.routes x :=
+  filterMap_range_eq_selFrom P.routes x
+
+theorem selRoutes_nodup (P : PathInst) (hp : C06.PoolInv P) (x : Vec) : (selRoutes P x).Nodup := by
+  rw [selRoutes_eq]; exact hp.nodup.sublist (selFrom_sublist 0 P.routes x)
+
+theorem selRoutes_subset (P : PathInst) (x : Vec) {r : List ℕ} (h : r ∈ selRoutes P x) : r ∈ P.routes := by
+  rw [selRoutes_eq] at h; exact (selFrom_sublist 0 P.routes x).subset h
+
+theorem mem_selRoutes (P : PathInst) (x : Vec) (r : List ℕ) :
+    r ∈ selRoutes P x ↔ ∃ k, x k = 1 ∧ P.routes[k]? = some r := by
+  rw [selRoutes_eq]; exact mem_selFrom_zero P.routes x r
+
+theorem poolValid_mem (P : PathInst) (cap init : ℚ) (hv : PoolValid P cap init) {r : List ℕ}
+    (h : r ∈ P.routes) : C06.ValidRoute P.g cap init r := by
+  obtain ⟨k, hk, rfl⟩ := List.getElem_of_mem h
+  exact (hv k hk).1
+
+/-- row `k − 1` of `A x` counts the selected routes that visit customer `k` -/
+theorem path_rowVal (P : PathInst) (hp : C06.PoolInv P) (x : Vec) (hx : IsBin P.data.n x) (r : ℕ)
+    (hr : r < P.g.nodes.length - 1) :
+    P.data.rowVal x r = ((((selRoutes P x).filter fun rt => (r + 1) ∈ rt).length : ℕ) : ℚ) := by
+  have hn : P.data.n = P.routes.length := hp.lenC
+  unfold MPData.rowVal
+  rw [sumTo_eq, hn, selRoutes_eq]
+  refine sum_range_ite_mul_eq_count P.routes x (fun k hk => hx k (by rw [hn]; exact hk))
+    (fun rt => (r + 1) ∈ rt) (fun j => P.data.Amat r j) ?_
+  intro k hk
+  have hA := (C06.path_cover_matrix P hp k (r + 1) hk (by omega) (by omega)).1
+  simpa only [Nat.add_sub_cancel] using hA
+
+theorem path_bvec (P : PathInst) (r : ℕ) (hr : r < P.g.nodes.length - 1) : P.data.bvec r = 1 := by
+  simp [MPData.bvec, PathInst.data, vecOf, hr]
+
+theorem path_quadR (P : PathInst) (x : Vec) : quad P.data.n P.data.Rmat x = 0 := by
+  have hR : P.data.Rmat = fun _ _ => 0 := by
+    funext i j
+    simp [MPData.Rmat, PathInst.data]
+  rw [hR]
+  simp [quad, sumTo_zero]
+
+/-- **path-based: feasible vectors = partitions into pool routes, cost-preservingly** -/
+theorem path_feasible_iff_partition (P : PathInst) (cap init : ℚ) (hp : C06.PoolInv P) (hv : PoolValid P cap init)
+    (x : Vec) (hx : IsBin P.data.n x) :
+    (P.data.feasibleB x = true ↔ IsPartition P.g cap init (selRoutes P x)) ∧
+    P.data.objective x = partitionCost P.g cap init (selRoutes P x) := by
+  have hn : P.data.n = P.routes.length := hp.lenC
+  constructor
+  · unfold MPData.feasibleB IsPartition
+    rw [Bool.and_eq_true, List.all_eq_true, decide_eq_true_eq]
+    have hm : P.data.m = P.g.nodes.length - 1 := rfl
+    constructor
+    · rintro ⟨hrows, _⟩
+      refine ⟨fun r hr => poolValid_mem P cap init hv (selRoutes_subset P x hr), selRoutes_nodup P hp x, ?_⟩
+      intro k hk1 hk
+      have hr : k - 1 < P.g.nodes.length - 1 := by omega
+      have h := hrows (k - 1) (List.mem_range.2 (by rw [hm]; exact hr))
+      rw [decide_eq_true_eq, path_rowVal P hp x hx _ hr, path_bvec P _ hr] at h
+      have hk' : k - 1 + 1 = k := by omega
+      rw [hk'] at h
+      exact_mod_cast h
+    · rintro ⟨_, _, hcnt⟩
+      refine ⟨?_, path_quadR P x⟩
+      intro r hr
+      have hr' : r < P.g.nodes.length - 1 := by rw [← hm]; exact List.mem_range.1 hr
+      rw [decide_eq_true_eq, path_rowVal P hp x hx _ hr', path_bvec P _ hr']
+      have := hcnt (r + 1) (by omega) (by omega)
+      exact_mod_cast this
+  · have hq : quad P.data.n P.data.Qmat x = 0 := by
+      have : P.data.Qmat = fun _ _ => 0 := by
+        funext i j; simp [MPData.Qmat, PathInst.data, cooEntry_nil]
+      rw [this]; simp [quad, sumTo_zero]
+    unfold MPData.objective partitionCost
+    rw [hq, add_zero, dot_eq, hn, selRoutes_eq]
+    refine sum_range_mul_eq_sel P.routes x (fun k hk => hx k (by rw [hn]; exact hk))
+      (routeCost P.g cap init) P.data.cvec ?_
+    intro k hk
+    exact (hv k hk).2
+
+theorem isPartition_perm {g : Graph} {cap init : ℚ} {rs rs' : List (List ℕ)} (h : rs.Perm rs')
+    (hp : IsPartition g cap init rs) : IsPartition g cap init rs' := by
+  obtain ⟨h1, h2, h3⟩ := hp
+  refine ⟨fun r hr => h1 r (h.mem_iff.2 hr), (h.nodup_iff).1 h2, fun k hk1 hk => ?_⟩
+  rw [← h3 k hk1 hk]
+  exact ((h.filter _).length_eq).symm
+
+theorem partitionCost_perm {g : Graph} {cap init : ℚ} {rs rs' : List (List ℕ)} (h : rs.Perm rs') :
+    partitionCost g cap init rs = partitionCost g cap init rs' := by
+  unfold partitionCost
+  exact (h.map _).sum_eq
+
+/-- … hence with ALL valid routes in the pool, path-based solutions and reference partitions have the same
+    achievable costs (so equal feasibility and equal optimum) -/
+theorem path_all_routes_eq_reference (P : PathInst) (cap init : ℚ) (hp : C06.PoolInv P) (hv : PoolValid P cap init)
+    (hall : ∀ r, C06.ValidRoute P.g cap init r → r ∈ P.routes) (c : ℚ) :
+    (∃ x, IsBin P.data.n x ∧ P.data.feasibleB x = true ∧ P.data.objective x = c)
+      ↔ (∃ rs, IsPartition P.g cap init rs ∧ partitionCost P.g cap init rs = c) := by
+  constructor
+  · rintro ⟨x, hx, hf, hc⟩
+    obtain ⟨h1, h2⟩ := path_feasible_iff_partition P cap init hp hv x hx
+    exact ⟨selRoutes P x, h1.1 hf, by rw [← h2, hc]⟩
+  · rintro ⟨rs, hrs, hc⟩
+    have hn : P.data.n = P.routes.length := hp.lenC
+    have hxv : ∀ b (hb : b < P.routes.length),
+        vecOf (solOf P rs) b = if P.routes[b] ∈ rs then 1 else 0 :=
+      fun b hb => vecOf_solOf P rs b hb hp.lenC
+    have hx : IsBin P.data.n (vecOf (solOf P rs)) := by
+      intro i hi
+      rw [hn] at hi
+      rw [hxv i hi]
+      split_ifs <;> simp
+    have hperm : (selRoutes P (vecOf (solOf P rs))).Perm rs := by
+      rw [List.perm_ext_iff_of_nodup (selRoutes_nodup P hp _) hrs.2.1]
+      intro r
+      rw [mem_selRoutes]
+      constructor
+      · rintro ⟨k, hk1, hk2⟩
+        obtain ⟨hk, rfl⟩ := List.getElem?_eq_some_iff.1 hk2
+        rw [hxv k hk] at hk1
+        by_contra hn
+        rw [if_neg hn] at hk1
+        exact absurd hk1 (by norm_num)
+      · intro hr
+        obtain ⟨k, hk, rfl⟩ := List.getElem_of_mem (hall r (hrs.1 r hr))
+        exact ⟨k, by rw [hxv k hk, if_pos hr], List.getElem?_eq_getElem hk⟩
+    obtain ⟨h1, h2⟩ := path_feasible_iff_partition P cap init hp hv _ hx
+    refine ⟨_, hx, h1.2 (isPartition_perm hperm.symm hrs), ?_⟩
+    rw [h2, partitionCost_perm hperm, hc]
+
+/-- stops and service times of a reference route under "arrive early and wait": `T₀ = 0`,
+    `T_{k+1} = max (T_k + travel) (window start)` -/
+def serviceTimes (g : Graph) : ℕ → ℚ → List ℕ → List ℚ
+  | _, t, [] => [t]
+  | cur, t, j :: rest =>
+    t :: serviceTimes g j (maxR (t + ((g.arc? cur j).map (·.time)).getD 0) (g.lo j)) rest
+
+/-- the moves `(n_k, T_k, n_{k+1}, T_{k+1})` of a route with given service times -/
+def movesOfRoute : List ℕ → List ℚ → List ATup
+  | a :: b :: rest, s :: t :: ts => (a, s, b, t) :: movesOfRoute (b :: rest) (t :: ts)
+  | _, _ => []
+
+/-! ### helper lemmas for the arc-based theorems -/
+
+/-- the moves of a walk from `cur` at time `t` (closed form of `movesOfRoute … (serviceTimes …)`) -/
+def movesFrom (g : Graph) : ℕ → ℚ → List ℕ → List ATup
+  | _, _, [] => []
+  | cur, t, j :: rest =>
+    (cur, t, j, maxR (t + C07.arcTime g cur j) (g.lo j)) ::
+      movesFrom g j (maxR (t + C07.arcTime g cur j) (g.lo j)) rest
+
+theorem serviceTimes_head (g : Graph) (cur : ℕ) (t : ℚ) (rest : List ℕ) :
+    ∃ X, serviceTimes g cur t rest = t :: X := by
+  cases rest with
+  | nil => exact ⟨[], rfl⟩
+  | cons j rest => exact ⟨_, rfl⟩
+
+theorem serviceTimes_cons (g : Graph) (cur : ℕ) (t : ℚ) (j : ℕ) (rest : List ℕ) :
+    serviceTimes g cur t (j :: rest) =
+      t :: serviceTimes g j (maxR (t + C07.arcTime g cur j) (g.lo j)) rest := rfl
+
+theorem movesOfRoute_eq (g : Graph) (rest : List ℕ) : ∀ cur t,
+    movesOfRoute (cur :: rest) (serviceTimes g cur t rest) = movesFrom g cur t rest := by
+  induction rest with
+  | nil => intro cur t; rfl
+  | cons j rest ih =>
+    intro cur t
+    rw [serviceTimes_cons, movesFrom, ← ih]
+    obtain ⟨X, hX⟩ := serviceTimes_head g j (maxR (t + C07.arcTime g cur j) (g.lo j)) rest
+    rw [hX]
+    rfl
+
+/-- a walk that `follow` accepts, started inside the origin's window, with all service times on the grid:
+    every move is admissible and the summed arc cost is what `follow` accumulates -/
+theorem follow_moves (I : ArcInst) (cap : ℚ) (rest : List ℕ) : ∀ cur t load cost c,
+    C06.follow I.g cap cur rest t load cost = some c →
+    I.g.lo cur ≤ t → leE t (I.g.hi cur) = true →
+    (∀ s ∈ serviceTimes I.g cur t rest, s ∈ I.T) →
+    (∀ u ∈ movesFrom I.g cur t rest, I.admissible u = true) ∧
+    ((movesFrom I.g cur t rest).map fun u => C05.arcCost I.g u.1 u.2.2.1).sum = c - cost := by
+  induction rest with
+  | nil =>
+    intro cur t load cost c h _ _ _
+    rw [C06.follow] at h
+    cases h
+    simp [movesFrom]
+  | cons j rest ih =>
+    intro cur t load cost c h hlo hhi hgrid
+    rw [C06.follow] at h
+    cases harc : I.g.arc? cur j with
+    | none => simp only [harc] at h; cases h
+    | some a =>
+      simp only [harc] at h
+      split_ifs at h with hA hB
+      have hat : C07.arcTime I.g cur j = a.time := C07.arcTime_of I.g cur j a harc
+      have hhi' : leE (maxR (t + a.time) (I.g.lo j)) (I.g.hi j) = true := by
+        simpa [ltE] using hA
+      rw [serviceTimes_cons, hat] at hgrid
+      have ht : t ∈ I.T := hgrid t List.mem_cons_self
+      have ht' : maxR (t + a.time) (I.g.lo j) ∈ I.T := by
+        obtain ⟨X, hX⟩ := serviceTimes_head I.g j (maxR (t + a.time) (I.g.lo j)) rest
+        exact hgrid _ (by rw [hX]; simp)
+      obtain ⟨ih1, ih2⟩ := ih j _ _ _ c h (le_maxR_right _ _) hhi'
+        (fun s hs => hgrid s (List.mem_cons_of_mem _ hs))
+      rw [movesFrom, hat]
+      constructor
+      · intro u hu
+        rcases List.mem_cons.1 hu with rfl | hu
+        · unfold ArcInst.admissible
+          simp only [harc, Bool.and_eq_true, decide_eq_true_eq]
+          exact ⟨⟨⟨⟨⟨⟨by simpa using ht, by simpa using ht'⟩, hlo⟩, hhi⟩, le_maxR_right _ _⟩, hhi'⟩,
+            le_maxR_left _ _⟩
+        · exact ih1 u hu
+      · rw [List.map_cons, List.sum_cons, ih2]
+        simp only [C05.arcCost, harc, Option.map_some, Option.getD_some]
+        ring
+
+theorem movesFrom_chain (g : Graph) (rest : List ℕ) : ∀ cur t, (∀ j ∈ rest.dropLast, j ≠ 0) →
+    C05.IsChain (movesFrom g cur t rest) := by
+  induction rest with
+  | nil => intro _ _ _; trivial
+  | cons j rest ih =>
+    intro cur t hnz
+    cases rest with
+    | nil => simp [movesFrom, C05.IsChain]
+    | cons k rest' =>
+      have hih := ih j (maxR (t + C07.arcTime g cur j) (g.lo j))
+        (fun i hi => hnz i (by rw [List.dropLast_cons_cons]; exact List.mem_cons_of_mem _ hi))
+      rw [movesFrom]
+      rw [movesFrom] at hih ⊢
+      refine ⟨⟨rfl, rfl⟩, hnz j (by simp), hih⟩
+
+theorem movesFrom_getLast? (g : Graph) (rest : List ℕ) : ∀ cur t,
+    (movesFrom g cur t rest).getLast?.map (·.2.2.1) = rest.getLast? := by
+  induction rest with
+  | nil => intro _ _; rfl
+  | cons j rest ih =>
+    intro cur t
+    cases rest with
+    | nil => simp [movesFrom]
+    | cons k rest' =>
+      have hih := ih j (maxR (t + C07.arcTime g cur j) (g.lo j))
+      rw [movesFrom]
+      rw [movesFrom] at hih ⊢
+      rw [List.getLast?_cons_cons, List.getLast?_cons_cons]
+      exact hih
+
+/-- **arc-based, complete grid ⇒ every reference route is representable**: if the grid contains every service
+    time of a (capacity-free) valid route, its moves are admissible and form a depot-to-depot route of the
+    arc-based model with the same cost.
+    (Statement change: the hypothesis `hdep0 : 0 ≤ hi 0` was added — the first move leaves the depot at time 0,
+    and admissibility of a move requires the departure time to lie inside the origin's window.) -/
+theorem arc_route_representable (I : ArcInst) (hw : C05.WF I) (cap init : ℚ) (r : List ℕ)
+    (hr : C06.ValidRoute I.g cap init r) (hdep : I.g.lo 0 ≤ 0) (hdep0 : leE 0 (I.g.hi 0) = true)
+    (hgrid : ∀ t ∈ serviceTimes I.g 0 0 r.tail, t ∈ I.T) :
+    C05.IsDepotRoute (movesOfRoute r (serviceTimes I.g 0 0 r.tail)) ∧
+    (∀ u ∈ movesOfRoute r (serviceTimes I.g 0 0 r.tail), I.admissible u = true) ∧
+    ((movesOfRoute r (serviceTimes I.g 0 0 r.tail)).map fun u => C05.arcCost I.g u.1 u.2.2.1).sum
+      = routeCost I.g cap init r := by
+  have _ := hw
+  obtain ⟨hlen, hhead, hlast, hnd, hfol⟩ := hr
+  match r, hlen, hhead with
+  | a :: j :: rest, _, hhead =>
+    simp only [List.head?_cons, Option.some.injEq] at hhead
+    subst hhead
+    simp only [List.tail_cons] at hgrid hfol ⊢
+    rw [movesOfRoute_eq]
+    obtain ⟨c, hc⟩ := Option.isSome_iff_exists.1 hfol
+    obtain ⟨h1, h2⟩ := follow_moves I cap (j :: rest) 0 0 init 0 c hc hdep hdep0 hgrid
+    have hnz : ∀ i ∈ (j :: rest).dropLast, i ≠ 0 := by
+      intro i hi h0
+      rw [List.dropLast_cons_cons, List.nodup_cons] at hnd
+      exact hnd.1 (h0 ▸ hi)
+    refine ⟨?_, h1, ?_⟩
+    · have hne : movesFrom I.g 0 0 (j :: rest) ≠ [] := by rw [movesFrom]; simp
+      refine ⟨hne, movesFrom_chain I.g _ 0 0 hnz, ?_, ?_⟩
+      · simp [movesFrom]
+      · have hl := movesFrom_getLast? I.g (j :: rest) 0 0
+        rw [List.getLast?_cons_cons] at hlast
+        rw [hlast, List.getLast?_eq_some_getLast hne] at hl
+        simpa using hl
+    · rw [h2]
+      simp [routeCost, hc]
+
+/-- generalised form of `arc_route_time_feasible`: start anywhere, not later than the first departure -/
+theorem chain_time_feasible (I : ArcInst) (r : List ATup) : ∀ (cur : ℕ) (t : ℚ), C05.IsChain r →
+    (∀ u ∈ r, I.admissible u = true) → (∀ h : r ≠ [], (r.head h).1 = cur ∧ t ≤ (r.head h).2.1) →
+    ∀ k (hk : k < r.length),
+      ((serviceTimes I.g cur t (r.map fun u => u.2.2.1)).getD (k + 1) 0) ≤ (r[k]).2.2.2 := by
+  induction r with
+  | nil => intro _ _ _ _ _ k hk; simp at hk
+  | cons u rest ih =>
+    intro cur t hch hadm hhead k hk
+    obtain ⟨hcur, ht⟩ := hhead (by simp)
+    simp only [List.head_cons] at hcur ht
+    have hu := hadm u List.mem_cons_self
+    -- the earliest arrival at the destination of `u` is dominated by its grid arrival time
+    have hstep : maxR (t + C07.arcTime I.g cur u.2.2.1) (I.g.lo u.2.2.1) ≤ u.2.2.2 := by
+      unfold ArcInst.admissible at hu
+      cases harc : I.g.arc? u.1 u.2.2.1 with
+      | none => simp [harc] at hu
+      | some a =>
+        simp only [harc, Bool.and_eq_true, decide_eq_true_eq] at hu
+        have hat : C07.arcTime I.g cur u.2.2.1 = a.time := by
+          rw [← hcur]; exact C07.arcTime_of I.g _ _ a harc
+        rw [hat]
+        refine maxR_le ?_ hu.1.1.2
+        have := hu.2
+        linarith
+    rw [List.map_cons, serviceTimes_cons]
+    cases k with
+    | zero =>
+      obtain ⟨X, hX⟩ := serviceTimes_head I.g u.2.2.1
+        (maxR (t + C07.arcTime I.g cur u.2.2.1) (I.g.lo u.2.2.1)) (rest.map fun u => u.2.2.1)
+      rw [hX]
+      simpa using hstep
+    | succ k =>
+      have hk' : k < rest.length := by simpa using hk
+      rw [List.getD_cons_succ, List.getElem_cons_succ]
+      refine ih u.2.2.1 _ ?_ (fun v hv => hadm v (List.mem_cons_of_mem _ hv)) ?_ k hk'
+      · cases rest with
+        | nil => trivial
+        | cons b rest' => exact hch.2.2
+      · intro hne
+        cases rest with
+        | nil => exact absurd rfl hne
+        | cons b rest' =>
+          obtain ⟨hl1, hl2⟩ := hch.1
+          simp only [List.head_cons]
+          exact ⟨hl1, by rw [hl2]; exact hstep⟩
+
+/-- **arc-based ⇒ reference (time feasibility)**: the node sequence of a depot-to-depot route of admissible
+    moves that starts at time ≥ 0 is time-feasible for the VRPTW with waiting: the earliest-arrival times are
+    dominated by the grid times of the moves, so no window is missed -/
+theorem arc_route_time_feasible (I : ArcInst) (hw : C05.WF I) (r : List ATup) (hr : C05.IsDepotRoute r)
+    (hadm : ∀ u ∈ r, I.admissible u = true) (hstart : ∀ h : r ≠ [], 0 ≤ (r.head h).2.1) :
+    ∀ k (hk : k < r.length),
+      ((serviceTimes I.g 0 0 (r.map fun u => u.2.2.1)).getD (k + 1) 0) ≤ (r[k]).2.2.2 := by
+  have _ := hw
+  obtain ⟨hne, hch, hh, _⟩ := hr
+  exact chain_time_feasible I r 0 0 hch hadm (fun h => ⟨hh, hstart h⟩)
+
+/-- (supplement) … so no window is missed: the earliest-arrival time at the destination of every move is not
+    later than that node's window end -/
+theorem arc_route_no_window_missed (I : ArcInst) (hw : C05.WF I) (r : List ATup) (hr : C05.IsDepotRoute r)
+    (hadm : ∀ u ∈ r, I.admissible u = true) (hstart : ∀ h : r ≠ [], 0 ≤ (r.head h).2.1) :
+    ∀ k (hk : k < r.length),
+      leE ((serviceTimes I.g 0 0 (r.map fun u => u.2.2.1)).getD (k + 1) 0) (I.g.hi (r[k]).2.2.1) = true := by
+  intro k hk
+  have hle := arc_route_time_feasible I hw r hr hadm hstart k hk
+  have hu := hadm _ (List.getElem_mem hk)
+  unfold ArcInst.admissible at hu
+  cases harc : I.g.arc? (r[k]).1 (r[k]).2.2.1 with
+  | none => simp [harc] at hu
+  | some a =>
+    simp only [harc, Bool.and_eq_true, decide_eq_true_eq] at hu
+    have h1 := hu.1.2
+    cases hhi : I.g.hi (r[k]).2.2.1 with
+    | none => rfl
+    | some b =>
+      rw [hhi] at h1
+      simp only [leE, decide_eq_true_eq] at h1 ⊢
+      exact le_trans hle h1
+
+/-! ### helper lemmas for the sequence-based theorem -/
+
+/-- what the walk construction needs from one (padded) route -/
+structure GoodRoute (g : Graph) (L : ℕ) (r : List ℕ) : Prop where
+  len2 : 2 ≤ r.length
+  lenL : r.length ≤ L
+  head : r.getD 0 0 = 0
+  last : r.getD (r.length - 1) 0 = 0
+  nodup : r.dropLast.Nodup
+  arcs : ∀ p, p + 1 < r.length → g.hasArc (r.getD p 0) (r.getD (p + 1) 0) = true
+  bound : ∀ i ∈ r, i < g.nodes.length
+
+theorem getD_of_le (r : List ℕ) (p : ℕ) (h : r.length ≤ p) : r.getD p 0 = 0 := by
+  rw [List.getD_eq_getElem?_getD, List.getElem?_eq_none h]; rfl
+
+theorem getD_of_lt (r : List ℕ) (p : ℕ) (h : p < r.length) : r.getD p 0 = r[p] := by
+  rw [List.getD_eq_getElem?_getD, List.getElem?_eq_getElem h]; rfl
+
+/-- from the last stop on, the padded route is at the depot -/
+theorem GoodRoute.tail_zero {g : Graph} {L : ℕ} {r : List ℕ} (h : GoodRoute g L r) (p : ℕ)
+    (hp : r.length ≤ p + 1) : r.getD p 0 = 0 := by
+  by_cases hlt : p < r.length
+  · have : p = r.length - 1 := by omega
+    rw [this]; exact h.last
+  · exact getD_of_le r p (by omega)
+
+/-- a customer occupies at most one position of a route -/
+theorem GoodRoute.pos_unique {g : Graph} {L : ℕ} {r : List ℕ} (h : GoodRoute g L r) (k : ℕ) (hk : k ≠ 0)
+    (p q : ℕ) (hp : r.getD p 0 = k) (hq : r.getD q 0 = k) : p = q := by
+  have key : ∀ p, r.getD p 0 = k → ∃ hp' : p < r.dropLast.length, r.dropLast[p] = k := by
+    intro p hp
+    have h1 : p + 1 < r.length := by
+      by_contra hn
+      exact hk (by rw [← hp]; exact h.tail_zero p (by omega))
+    have h2 : p < r.dropLast.length := by rw [List.length_dropLast]; omega
+    refine ⟨h2, ?_⟩
+    rw [List.getElem_dropLast, ← getD_of_lt r p (by omega)]
+    exact hp
+  obtain ⟨hp1, hp2⟩ := key p hp
+  obtain ⟨hq1, hq2⟩ := key q hq
+  exact (h.nodup.getElem_inj_iff).1 (hp2.trans hq2.symm)
+
+/-- the stops of an accepted walk are joined by stored arcs -/
+theorem follow_arcs (g : Graph) (cap : ℚ) (rest : List ℕ) : ∀ cur t load cost c,
+    C06.follow g cap cur rest t load cost = some c →
+    ∀ p, p < rest.length → g.hasArc ((cur :: rest).getD p 0) ((cur :: rest).getD (p + 1) 0) = true := by
+  induction rest with
+  | nil => intro _ _ _ _ _ _ p hp; simp at hp
+  | cons j rest ih =>
+    intro cur t load cost c h p hp
+    rw [C06.follow] at h
+    cases harc : g.arc? cur j with
+    | none => simp only [harc] at h; cases h
+    | some a =>
+      simp only [harc] at h
+      split_ifs at h with hA hB
+      cases p with
+      | zero =>
+        simp only [List.getD_cons_zero, List.getD_cons_succ]
+        unfold Graph.hasArc
+        rw [dictHas_iff_dictGet_isSome]
+        unfold Graph.arc? at harc
+        rw [harc]; rfl
+      | succ p =>
+        rw [List.getD_cons_succ, List.getD_cons_succ]
+        exact ih j _ _ _ c h p (by simpa using hp)
+
+/-- … and the summed arc cost along the stops is what `follow` accumulates -/
+theorem follow_cost (g : Graph) (cap : ℚ) (rest : List ℕ) : ∀ cur t load cost c,
+    C06.follow g cap cur rest t load cost = some c →
+    ∑ p ∈ Finset.range rest.length,
+      C07.arcCost g ((cur :: rest).getD p 0) ((cur :: rest).getD (p + 1) 0) = c - cost := by
+  induction rest with
+  | nil =>
+    intro cur t load cost c h
+    rw [C06.follow] at h
+    cases h
+    simp
+  | cons j rest ih =>
+    intro cur t load cost c h
+    rw [C06.follow] at h
+    cases harc : g.arc? cur j with
+    | none => simp only [harc] at h; cases h
+    | some a =>
+      simp only [harc] at h
+      split_ifs at h with hA hB
+      rw [List.length_cons, Finset.sum_range_succ']
+      have ih' := ih j _ _ _ c h
+      simp only [List.getD_cons_succ, List.getD_cons_zero] at ih' ⊢
+      rw [ih']
+      simp only [C07.arcCost, harc, Option.map_some, Option.getD_some]
+      ring
+
+theorem goodRoute_of_valid (g : Graph) (hg : C15.Inv g) (cap init : ℚ) (L : ℕ) (r : List ℕ)
+    (hr : C06.ValidRoute g cap init r) (hL : r.length ≤ L) :
+    GoodRoute g L r ∧
+    ∑ p ∈ Finset.range (r.length - 1), C07.arcCost g (r.getD p 0) (r.getD (p + 1) 0) = routeCost g cap init r := by
+  obtain ⟨hlen, hhead, hlast, hnd, hfol⟩ := hr
+  obtain ⟨c, hc⟩ := Option.isSome_iff_exists.1 hfol
+  match r, hlen, hhead with
+  | a :: j :: rest, _, hhead =>
+    simp only [List.head?_cons, Option.some.injEq] at hhead
+    subst hhead
+    simp only [List.tail_cons] at hc
+    obtain ⟨b1, b2⟩ := C06.follow_bound g hg cap _ _ _ _ _ _ hc
+    refine ⟨⟨by simp, hL, rfl, ?_, hnd, ?_, ?_⟩, ?_⟩
+    · rw [List.getLast?_eq_getElem?] at hlast
+      rw [List.getD_eq_getElem?_getD, hlast]; rfl
+    · intro p hp
+      exact follow_arcs g cap _ _ _ _ _ _ hc p (by simpa using hp)
+    · intro i hi
+      rcases List.mem_cons.1 hi with rfl | hi
+      · exact b2 (by simp)
+      · exact b1 i hi
+    · have := follow_cost g cap _ _ _ _ _ _ hc
+      simp only [List.length_cons, Nat.add_sub_cancel] at this ⊢
+      rw [this]
+      simp [routeCost, hc]
+
+theorem goodRoute_depot (g : Graph) (L : ℕ) (hL : 2 ≤ L) (h00 : g.hasArc 0 0 = true)
+    (h0 : 0 < g.nodes.length) : GoodRoute g L [0, 0] := by
+  refine ⟨by simp, by simpa using hL, rfl, rfl, by simp, ?_, by simpa using h0⟩
+  intro p hp
+  have : p = 0 := by simp at hp; omega
+  subst this
+  exact h00
+
+/-- the padding contributes nothing to the cost -/
+theorem GoodRoute.cost_pad {g : Graph} {L : ℕ} {r : List ℕ} (h : GoodRoute g L r)
+    (hc00 : C07.arcCost g 0 0 = 0) :
+    ∑ p ∈ Finset.range (L - 1), C07.arcCost g (r.getD p 0) (r.getD (p + 1) 0)
+      = ∑ p ∈ Finset.range (r.length - 1), C07.arcCost g (r.getD p 0) (r.getD (p + 1) 0) := by
+  symm
+  refine Finset.sum_subset ?_ ?_
+  · intro p hp
+    rw [Finset.mem_range] at hp ⊢
+    have := h.lenL
+    omega
+  · intro p _ hp
+    rw [Finset.mem_range] at hp
+    rw [h.tail_zero p (by omega), h.tail_zero (p + 1) (by omega), hc00]
+
+theorem sum_range_getD (m : List ℚ) : ∀ V, m.length ≤ V → ∑ v ∈ Finset.range V, m.getD v 0 = m.sum := by
+  induction m with
+  | nil => intro V _; simp
+  | cons a m ih =>
+    intro V hV
+    obtain ⟨V', rfl⟩ : ∃ V', V = V' + 1 := ⟨V - 1, by simp at hV; omega⟩
+    rw [Finset.sum_range_succ']
+    simp only [List.getD_cons_succ, List.getD_cons_zero, List.sum_cons]
+    rw [ih V' (by simpa using hV), add_comm]
+
+/-- **sequence-based, non-strict ≤ reference**: a reference partition with at most `V` routes of at most `L − 2`
+    customers each is a walk assignment of equal cost (surcharges 0, depot self-arc of cost 0) -/
+theorem seq_nonstrict_le_reference (I : SeqInst) (cap init : ℚ) (hL : 3 ≤ I.L) (hg : C15.Inv I.g)
+    (h00 : I.g.hasArc 0 0 = true) (hc00 : C07.arcCost I.g 0 0 = 0) (hvc : ∀ v, I.vc v = 0)
+    (rs : List (List ℕ)) (hp : IsPartition I.g cap init rs) (hV : rs.length ≤ I.V)
+    (hlen : ∀ r ∈ rs, r.length ≤ I.L) :
+    ∃ w, C07.Walk I w ∧
+      (sumTo I.V fun v => sumTo (I.L - 1) fun p => C07.arcCost I.g (w v p) (w v (p + 1)) + I.vc v)
+        = partitionCost I.g cap init rs := by
+  obtain ⟨hvalid, hnd, hcnt⟩ := hp
+  -- the depot exists
+  have h0 : 0 < I.g.nodes.length := by
+    obtain ⟨e, he, hek⟩ := dictHas_iff.mp h00
+    obtain ⟨ni, _, h1, _⟩ := hg.filed e he
+    rw [hek] at h1
+    by_contra hx
+    rw [List.getElem?_eq_none (by omega)] at h1; cases h1
+  -- every padded route is good
+  have hgood : ∀ v, GoodRoute I.g I.L (rs.getD v [0, 0]) := by
+    intro v
+    by_cases hv : v < rs.length
+    · rw [List.getD_eq_getElem?_getD, List.getElem?_eq_getElem hv]
+      exact (goodRoute_of_valid I.g hg cap init I.L _ (hvalid _ (List.getElem_mem hv))
+        (hlen _ (List.getElem_mem hv))).1
+    · rw [List.getD_eq_getElem?_getD, List.getElem?_eq_none (by omega)]
+      exact goodRoute_depot I.g I.L (by omega) h00 h0
+  refine ⟨fun v p => (rs.getD v [0, 0]).getD p 0, ⟨?_, ?_, ?_, ?_, ?_, ?_⟩, ?_⟩
+  · -- lt
+    intro v _ p _
+    by_cases hpl : p < (rs.getD v [0, 0]).length
+    · rw [getD_of_lt _ p hpl]
+      exact (hgood v).bound _ (List.getElem_mem hpl)
+    · rw [getD_of_le _ p (by omega)]; exact h0
+  · intro v _; exact (hgood v).head
+  · intro v _
+    exact (hgood v).tail_zero (I.L - 1) (by have := (hgood v).lenL; omega)
+  · -- arcs
+    intro v _ p _
+    by_cases hpl : p + 1 < (rs.getD v [0, 0]).length
+    · exact (hgood v).arcs p hpl
+    · rw [(hgood v).tail_zero p (by omega), (hgood v).tail_zero (p + 1) (by omega)]
+      exact h00
+  · -- absorb
+    intro v _ p hp1 _ hz
+    by_cases hpl : p + 1 < (rs.getD v [0, 0]).length
+    · exfalso
+      have hgv := hgood v
+      have h2 : p < (rs.getD v [0, 0]).dropLast.length := by rw [List.length_dropLast]; omega
+      have h3 : 0 < (rs.getD v [0, 0]).dropLast.length := by omega
+      have e1 : (rs.getD v [0, 0]).dropLast[p] = 0 := by
+        rw [List.getElem_dropLast, ← getD_of_lt _ p (by omega)]; exact hz
+      have e2 : (rs.getD v [0, 0]).dropLast[0] = 0 := by
+        rw [List.getElem_dropLast, ← getD_of_lt _ 0 (by omega)]; exact hgv.head
+      have := (hgv.nodup.getElem_inj_iff).1 (e1.trans e2.symm)
+      omega
+    · exact (hgood v).tail_zero (p + 1) (by omega)
+  · -- once
+    intro k hk1 hk
+    obtain ⟨r0, hr0, hkr0, huniq⟩ := C05.filter_length_one_unique rs (fun r => k ∈ r) (hcnt k hk1 hk)
+    simp only [decide_eq_true_eq] at hkr0 huniq
+    obtain ⟨v0, hv0, rfl⟩ := List.getElem_of_mem hr0
+    obtain ⟨p0, hp0, hkp0⟩ := List.getElem_of_mem hkr0
+    have hR0 : rs.getD v0 [0, 0] = rs[v0] := by
+      rw [List.getD_eq_getElem?_getD, List.getElem?_eq_getElem hv0]; rfl
+    rw [Finset.card_eq_one]
+    refine ⟨(p0, v0), ?_⟩
+    ext ⟨p, v⟩
+    simp only [Finset.mem_filter, Finset.mem_product, Finset.mem_range, Finset.mem_singleton, Prod.mk.injEq]
+    constructor
+    · rintro ⟨_, hw⟩
+      have hvl : v < rs.length := by
+        by_contra hn
+        have hR : rs.getD v [0, 0] = [0, 0] := by
+          rw [List.getD_eq_getElem?_getD, List.getElem?_eq_none (by omega)]; rfl
+        have hz : ([0, 0] : List ℕ).getD p 0 = 0 := by
+          match p with
+          | 0 => rfl
+          | 1 => rfl
+          | p + 2 => rfl
+        rw [hR, hz] at hw
+        omega
+      have hR : rs.getD v [0, 0] = rs[v] := by
+        rw [List.getD_eq_getElem?_getD, List.getElem?_eq_getElem hvl]; rfl
+      have hpl : p < rs[v].length := by
+        by_contra hn
+        rw [hR, getD_of_le _ p (by omega)] at hw
+        omega
+      have hmem : k ∈ rs[v] := by
+        rw [hR, getD_of_lt _ p hpl] at hw
+        rw [← hw]; exact List.getElem_mem hpl
+      have hveq : v = v0 := (hnd.getElem_inj_iff).1 (huniq _ (List.getElem_mem hvl) hmem)
+      subst hveq
+      refine ⟨?_, rfl⟩
+      have hg0 := hgood v
+      rw [hR0] at hg0
+      refine hg0.pos_unique k (by omega) p p0 (by rw [← hR0]; exact hw) ?_
+      rw [getD_of_lt _ p0 hp0]; exact hkp0
+    · rintro ⟨rfl, rfl⟩
+      have hg0 := hgood v
+      rw [hR0] at hg0
+      refine ⟨⟨lt_of_lt_of_le hp0 hg0.lenL, lt_of_lt_of_le hv0 hV⟩, ?_⟩
+      rw [hR0, getD_of_lt _ p hp0]; exact hkp0
+  · -- cost
+    simp only [sumTo_eq, hvc, add_zero]
+    unfold partitionCost
+    rw [← sum_range_getD _ I.V (by simpa using hV)]
+    refine Finset.sum_congr rfl fun v _ => ?_
+    rw [(hgood v).cost_pad hc00]
+    by_cases hv : v < rs.length
+    · have hR : rs.getD v [0, 0] = rs[v] := by
+        rw [List.getD_eq_getElem?_getD, List.getElem?_eq_getElem hv]; rfl
+      rw [hR, (goodRoute_of_valid I.g hg cap init I.L _ (hvalid _ (List.getElem_mem hv))
+        (hlen _ (List.getElem_mem hv))).2]
+      simp [List.getD_eq_getElem?_getD, hv]
+    · have hR : rs.getD v [0, 0] = [0, 0] := by
+        rw [List.getD_eq_getElem?_getD, List.getElem?_eq_none (by omega)]; rfl
+      rw [hR]
+      simp [List.getD_eq_getElem?_getD, hv, hc00]
 
 end Vrp.C08
